@@ -47,6 +47,14 @@ func (e *Ev) evCall(x *ast.CallExpr) Val {
 				return e.evBufferMethod(x, sel)
 			}
 			fn := s.Obj().(*types.Func)
+			if fn.Pkg() != nil && fn.Pkg().Path() == "sync" && (fn.Name() == "Lock" || fn.Name() == "Unlock") {
+				mu, ok := e.ev(sel.X).(VSub)
+				if !ok {
+					e.unsupp(x, "mutex is not a field of a heap object")
+				}
+				e.mutexOp(mu, fn.Name(), x)
+				return VTuple{}
+			}
 			if v, ok := e.evModelledMethod(x, sel, fn); ok {
 				return v
 			}
@@ -197,6 +205,10 @@ func (e *Ev) evBuiltin(x *ast.CallExpr, name string) Val {
 			return VInt{n}
 		case VArrLit:
 			return VInt{fmt.Sprintf("%d", a.Len)}
+		case VMapRef:
+			n := e.fx.declare(sortInt, "maplen")
+			e.fx.emit(fmt.Sprintf("(assert (and (<= 0 %s) (< %s %s)))", n, n, maxLen))
+			return VInt{n}
 		}
 		e.unsupp(x, "len of %T", v)
 	case "panic":
@@ -228,7 +240,7 @@ func (e *Ev) evBuiltin(x *ast.CallExpr, name string) Val {
 				}
 			}
 		case *types.Map:
-			return e.fx.emptyHeapMap(u)
+			return e.makeMap(u, x)
 		}
 		e.unsupp(x, "make of %s", t)
 	case "append":
@@ -491,7 +503,7 @@ func (e *Ev) evFmt(x *ast.CallExpr, name string) Val {
 			e.evOpaqueArg(a)
 		}
 		r := e.fx.declare(sortInt, "err")
-		e.fx.emit(fmt.Sprintf("(assert (> %s 0))", r))
+		e.fx.emit(fmt.Sprintf("(assert (>= %s 1000))", r))
 		return VErr{r}
 	case "Sprintf":
 		seq, ln, ok := e.formatSeq(x, 0)
@@ -635,7 +647,8 @@ func (e *Ev) applyContract(x ast.Node, con *Contract, fn *types.Func, recv Val, 
 	if fn.Pkg() != nil {
 		calleePkg = fn.Pkg()
 	}
-	preEv := &Ev{fx: fx, st: e.st, contract: true, pkg: calleePkg, lookup: func(n string) (Val, bool) { v, ok := pre[n]; return v, ok }}
+	preSt := e.st.clone()
+	preEv := &Ev{fx: fx, st: preSt, contract: true, pkg: calleePkg, lookup: func(n string) (Val, bool) { v, ok := pre[n]; return v, ok }}
 	for i, rq := range con.Requires {
 		lbl := rq.Label
 		if lbl == "" {
@@ -654,6 +667,9 @@ func (e *Ev) applyContract(x ast.Node, con *Contract, fn *types.Func, recv Val, 
 			nm = con.Results[i]
 		}
 		rv := fx.fresh(sig.Results().At(i).Type(), "r_"+fn.Name()+"_"+nm)
+		if rr, isRef := rv.(VRef); isRef {
+			fx.assume(e.st.pc, sLe(rr.T, fx.allocTerm(e.st)))
+		}
 		results = append(results, rv)
 		if i < len(con.Results) && con.Results[i] != "_" {
 			post[con.Results[i]] = rv
@@ -662,7 +678,7 @@ func (e *Ev) applyContract(x ast.Node, con *Contract, fn *types.Func, recv Val, 
 	for _, u := range upds {
 		e.st.env[u.obj] = u.nv
 	}
-	postEv := &Ev{fx: fx, st: e.st, contract: true, pkg: calleePkg, lookup: func(n string) (Val, bool) { v, ok := post[n]; return v, ok }, oldEv: preEv}
+	postEv := &Ev{fx: fx, st: e.st, contract: true, pkg: calleePkg, lookup: func(n string) (Val, bool) { v, ok := post[n]; return v, ok }, oldEv: preEv, modKeys: strings.Fields(con.Options["modifies"])}
 	for _, en := range con.Ensures {
 		t := postEv.boolOf(postEv.ev(en.Expr), en.Expr)
 		fx.assume(e.st.pc, t)
